@@ -210,22 +210,23 @@ End Lin.
 From Spox Require Import Plan.
 Section InstFacts.
 Variable p : prog.
-Hypothesis Hacyc : acyclic_b p = true.
+Variable main : nat.
+Hypothesis Hacyc : acyclic_b p main = true.
 
-Lemma rank_insP n x : is_argP p n = false -> In (Some x) (insP p n) -> rankP p (vnode x) < rankP p n.
+Lemma rank_insP n x : is_argP p n = false -> In (Some x) (insP p main n) -> rankP p main (vnode x) < rankP p main n.
 Proof.
-  intros Ha Hx. unfold insP in Hx. destruct (inR p n) eqn:Er; [|destruct Hx].
+  intros Ha Hx. unfold insP in Hx. destruct (inR p main n) eqn:Er; [|destruct Hx].
   unfold acyclic_b in Hacyc. rewrite forallb_forall in Hacyc.
-  assert (Hin : In n (topoP p)) by (now apply (mem_In nref_eqb nref_eqb_spec)).
+  assert (Hin : In n (topoP p main)) by (now apply (mem_In nref_eqb nref_eqb_spec)).
   specialize (Hacyc n Hin). rewrite Ha in Hacyc. simpl in Hacyc. apply andb_prop in Hacyc. destruct Hacyc as [H1 _].
-  rewrite forallb_forall in H1. assert (Hx' : In (Some x) (insP p n)) by (unfold insP; now rewrite Er).
+  rewrite forallb_forall in H1. assert (Hx' : In (Some x) (insP p main n)) by (unfold insP; now rewrite Er).
   specialize (H1 _ Hx'). now apply Nat.ltb_lt in H1.
 Qed.
-Lemma rank_subsP n g r : is_argP p n = false -> In g (subsP p n) -> In r (gresP p g) -> rankP p (vnode r) < rankP p n.
+Lemma rank_subsP n g r : is_argP p n = false -> In g (subsP p main n) -> In r (gresP p g) -> rankP p main (vnode r) < rankP p main n.
 Proof.
-  intros Ha Hg Hr. assert (Er : inR p n = true). { unfold subsP in Hg. destruct (inR p n); [reflexivity|destruct Hg]. }
+  intros Ha Hg Hr. assert (Er : inR p main n = true). { unfold subsP in Hg. destruct (inR p main n); [reflexivity|destruct Hg]. }
   unfold acyclic_b in Hacyc. rewrite forallb_forall in Hacyc.
-  assert (Hin : In n (topoP p)) by (now apply (mem_In nref_eqb nref_eqb_spec)).
+  assert (Hin : In n (topoP p main)) by (now apply (mem_In nref_eqb nref_eqb_spec)).
   specialize (Hacyc n Hin). rewrite Ha in Hacyc. simpl in Hacyc. apply andb_prop in Hacyc. destruct Hacyc as [_ H2].
   rewrite forallb_forall in H2. specialize (H2 _ Hg). rewrite forallb_forall in H2. specialize (H2 _ Hr). now apply Nat.ltb_lt in H2.
 Qed.
@@ -241,17 +242,17 @@ Proof. destruct n; simpl; intros H; [now apply opsem_ext|reflexivity]. Qed.
 
 (* Executing the emitted structure on the values of the main arguments yields, for each requested output, the meaning of the
    requested Var — for every operator semantics. *)
-Theorem plan_sem g : check_plan p g = true -> forall av,
-  run_plan p val dv opsem (plan_of_graph p 0 g) av = map (meaning p val dv opsem (bindv val dv (gargsP p 0) av)) (gresP p 0).
+Theorem plan_sem g : check_plan p main g = true -> forall av,
+  run_plan p main val dv opsem (plan_of_graph p main g) av = map (meaning p main val dv opsem (bindv val dv (gargsP p main) av)) (gresP p main).
 Proof.
   intros H av. unfold check_plan in H. apply andb_prop in H. destruct H as [_ Hwf].
   unfold run_plan, meaning.
-  pose proof (run_main_correct val dv (is_argP p) (insP p) (subsP p) (gargsP p) (gresP p) (noutsP p) (opsemP val dv opsem)
-                opsemP_ext (rankP p)
-                (fun n x Ha Hx => match x as x0 return In (Some x0) (insP p n) -> rankv (rankP p) x0 < rankP p n with V m o => fun Hx0 => rank_insP n (V m o) Ha Hx0 end Hx)
-                (fun n g0 r Ha Hg Hr => match r as r0 return In r0 (gresP p g0) -> rankv (rankP p) r0 < rankP p n with V m o => fun Hr0 => rank_subsP n g0 (V m o) Ha Hg Hr0 end Hr)
-                (plan_of_graph p 0 g) Hwf av) as R.
-  assert (Hid : pgid (plan_of_graph p 0 g) = 0) by (destruct g; reflexivity).
+  pose proof (run_main_correct val dv (is_argP p) (insP p main) (subsP p main) (gargsP p) (gresP p) (noutsP p) (opsemP val dv opsem)
+                opsemP_ext (rankP p main)
+                (fun n x Ha Hx => match x as x0 return In (Some x0) (insP p main n) -> rankv (rankP p main) x0 < rankP p main n with V m o => fun Hx0 => rank_insP n (V m o) Ha Hx0 end Hx)
+                (fun n g0 r Ha Hg Hr => match r as r0 return In r0 (gresP p g0) -> rankv (rankP p main) r0 < rankP p main n with V m o => fun Hr0 => rank_subsP n g0 (V m o) Ha Hg Hr0 end Hr)
+                (plan_of_graph p main g) Hwf av) as R.
+  assert (Hid : pgid (plan_of_graph p main g) = main) by (destruct g; reflexivity).
   rewrite Hid in R. rewrite R. apply map_ext. intros [n o]. reflexivity.
 Qed.
 End WithSem.
@@ -264,11 +265,11 @@ Theorem build_sem p r m inputs outputs :
   forall (val : Type) (dv : val) (opsem : nat -> list (option val) -> list (clos val) -> list val),
   (forall n ivs c1 c2, Forall2 (fun a b => forall av, a av = b av) c1 c2 -> opsem n ivs c1 = opsem n ivs c2) ->
   forall av,
-  run_plan p' val dv opsem (plan_of_graph p' 0 (mmain m)) av =
-  map (meaning p' val dv opsem (bindv val dv (main_args inputs) av)) (map snd outputs).
+  run_plan p' 0 val dv opsem (plan_of_graph p' 0 (mmain m)) av =
+  map (meaning p' 0 val dv opsem (bindv val dv (main_args inputs) av)) (map snd outputs).
 Proof.
   intros H Hi Ho p' val dv opsem Hext av. apply build_checked_inv in H. destruct H as [_ Hv].
   pose proof (plan_checked p r m inputs outputs Hi Ho Hv) as Hc. fold p' in Hc.
-  assert (Ha : acyclic_b p' = true) by (unfold check_plan in Hc; apply andb_prop in Hc; tauto).
-  rewrite (plan_sem p' Ha val dv opsem Hext (mmain m) Hc av). reflexivity.
+  assert (Ha : acyclic_b p' 0 = true) by (unfold check_plan in Hc; apply andb_prop in Hc; tauto).
+  rewrite (plan_sem p' 0 Ha val dv opsem Hext (mmain m) Hc av). reflexivity.
 Qed.
